@@ -79,7 +79,12 @@ def suite_smiles(tier: str, seed: int, mult: int) -> SuiteResult:
                 smiles, bad = gen_smiles(rng, n, 0.3)
                 if not bad:
                     smiles[5], bad = INVALID[0], [5]
-            parts = rng.choice([2, 3, 4, 7, 11]) if mode == "parts" else None
+            parts = rng.choice([2, 3, 4, 7, 9, 9, 11]) if mode == "parts" else None
+            if parts == 9 and not (k == 0):
+                # a count whose remainder exceeds the quotient (17 = 9*1 + 8, 26, 35, 44): a floor instead of a ceiling
+                # would cut more than nine parts and break the name order
+                n = rng.choice([17, 26, 35, 44])
+                smiles, bad = gen_smiles(rng, n, p_inv)
             maxper = rng.choice([1, 3, 8, 50]) if mode == "max" else None
             ps = rng.choice([1, 2, 3, 8])
             pack = rng.random() < 0.6
